@@ -213,3 +213,14 @@ PROPS["C11"] = dict(
     rule="one case per (model, master, algorithm, velocity) holding a 128x128 volume/expression sub-grid, or per brightness configuration; elementary_evaluations counts grid points",
     assumptions=E2_ASSUME[:1] + ["null chips; carrier mask per algorithm from the YM2612 manual (register slot order 0x40,0x44,0x48,0x4C)"],
 )
+
+PROPS["C13"] = dict(
+    level="exploration", engine="enum", title="audio calls fill exactly what they report, in the requested sample format",
+    technique="exhaustive enumeration of request sizes x 10 sample types x 4 container sizes x 3 buffer layouts x 8 emulator cores x chip counts x loud/quiet x generate/play; guard-byte accounting with two poison patterns, return-value contract and a conversion table checked sample by sample against the F64 rendering of the same history",
+    level_text="Each configuration renders the same call history three times (F64 reference, two poison patterns). Exactly the reported number of samples must be stored at left/right + i*sampleOffset, every other byte of the guarded buffers must keep its poison, "
+               "the return value must be the request rounded down to even (0 for negatives; at most that for play, 0 only at the end of the song), supported pairs must be the documented conversion (saturation, unsigned offsets, scaling, /32767 for floats) of the integer signal recovered from the F64 run, unsupported pairs must return 0 and write nothing.",
+    level_note="guards are 64 bytes on each side (the ASan leg sees anything further); relies on the cores being deterministic across three instances with identical histories (C14's subject: a difference is reported as nondeterministic-return / F64 not reproducible)",
+    legs=[Leg("audio", ["models/c13_audio.cpp"], "fast", [], []), Leg("audio_asan", ["models/c13_audio.cpp"], "asan", [], [])],
+    rule="one case per configuration; elementary_evaluations counts compared samples; non-trivial when accounting and conversion were fully checked",
+    assumptions=E2_ASSUME[:1] + ["real emulator cores (no null chips)"],
+)
